@@ -439,7 +439,13 @@ def classify(c, impl):
     return labs
 
 
+_SHRINK_BUDGET = [120]   # shrink rounds per process: a broken tree yields hundreds of failing cases, minimising a few is enough
+
+
 def shrink_candidates(c):
+    _SHRINK_BUDGET[0] -= 1
+    if _SHRINK_BUDGET[0] < 0:
+        return
     ops = c['ops']
     for i in range(len(ops)):
         d = dict(c)
